@@ -181,10 +181,13 @@ def run(prop, tier, replay, Ctx):
         "switches": "root function style x cpp_compat x include guard x contexts x wrapped, with all foreign declarations",
     }
     runs = 0
+    unjudged = {}
     for (section, label, case), r in zip(cases, results):
         if "machinery" in r:
             raise Ctx.Machinery("%s (case %s)" % (r["machinery"], json.dumps(case)[:300]))
-        V = r["violations"]
+        V, unj = TL.split_judged(r["violations"])
+        for k, n in unj.items():
+            unjudged[k] = unjudged.get(k, 0) + n
         runs += r.get("runs", 0)
         first = V[0] if V else None
         rep.record(section, case, {"obs": r["obs"], "sigs": sorted(set(s for s, _ in V))}, True, first)
@@ -195,6 +198,8 @@ def run(prop, tier, replay, Ctx):
                 add_violation(rep, section, s, d, case)
     for s in rep.order:
         rep.rule(s, rules.get(s, ""))
+    rep.note(rep.order[0], "unjudged_observations", unjudged)
+    rep.assume("causes listed in bindgen_tool.UNJUDGED are recorded, not judged: they depend on cbindgen's C++ template / alias rendering, which cannot be confirmed offline; a header that fails to compile for such a cause contributes no further checks")
     rep.note(rep.order[0], "tool_runs_in_fresh_processes", runs)
     rep.note(rep.order[0], "repetitions_per_case", R)
     rep.note(rep.order[0], "enumeration_wall_s", round(time.time() - t0, 1))
